@@ -341,6 +341,38 @@ SHALLOW = {
 }
 
 
+# the closed table of user callables placed inside Is[...] (same functions as Core/Corr.v pb_table)
+PREDICATES = [
+    lambda x: isinstance(x, int) and x > 0,
+    lambda x: isinstance(x, str) and len(x) > 1,
+    lambda x: x is None,
+    lambda x: True,
+    lambda x: False,
+]
+
+
+def vexp_to_python(v):
+    from beartype.vale import Is, IsAttr, IsEqual, IsInstance, IsSubclass
+    t = v[0]
+    if t == 'is':
+        return Is[PREDICATES[v[1]]]
+    if t == 'attr':
+        return IsAttr[v[1], vexp_to_python(v[2])]
+    if t == 'eq':
+        return IsEqual[to_python(v[1])]
+    if t == 'inst':
+        return IsInstance[tuple(CLS[c] for c in v[1])]
+    if t == 'sub':
+        return IsSubclass[tuple(CLS[c] for c in v[1])]
+    if t == 'and':
+        return vexp_to_python(v[1]) & vexp_to_python(v[2])
+    if t == 'or':
+        return vexp_to_python(v[1]) | vexp_to_python(v[2])
+    if t == 'not':
+        return ~vexp_to_python(v[1])
+    raise ValueError(v)
+
+
 def hint_to_python(h):
     """hint IR -> Python type hint"""
     t = h[0]
@@ -375,4 +407,6 @@ def hint_to_python(h):
         return type[typing.Union[tuple(CLS[c] for c in h[1])]]
     if t == 'shallow':
         return SHALLOW[h[1]][0](rec(h[2]))
+    if t == 'annot':
+        return typing.Annotated[(rec(h[1]),) + tuple(vexp_to_python(v) for v in h[2])]
     raise ValueError(h)
